@@ -280,3 +280,71 @@ func racePass(rep *Reporter, pk concPkg, user, tier string) int {
 	})
 	return runs
 }
+
+// replayE3a re-runs one recorded schedule of one configuration on the
+// generated code of the current tree, twice, without any exploration.
+func replayE3a(prop string, rec map[string]interface{}) {
+	cfg := str(rec, "configuration")
+	var sched []string
+	if xs, ok := rec["schedule"].([]interface{}); ok {
+		for _, x := range xs {
+			sched = append(sched, fmt.Sprint(x))
+		}
+	}
+	pkgs := []concPkg{{"c19a", "c19_user.go.txt", []string{"c19_main.go.txt", "c19_cfg_a.go.txt"}}, {"c19b", "c19b_user.go.txt", []string{"c19_main.go.txt", "c19_cfg_b.go.txt"}}}
+	if prop == "C20" {
+		pkgs = []concPkg{{"c20", "c20_user.go.txt", []string{"c20_main.go.txt"}}}
+	}
+	reproduced := false
+	for _, pk := range pkgs {
+		if prop == "C19" && (strings.HasPrefix(cfg, "JoinBR") != (pk.name == "c19b")) {
+			continue
+		}
+		dir := filepath.Join(scratchDir, "e3a", pk.name)
+		_, _, inconclusive, err := buildConcScenario(pk.name, harnessFile(pk.user), "")
+		if inconclusive != "" || err != nil {
+			fmt.Println("cannot build the scenario:", inconclusive, err)
+			cleanup()
+			os.Exit(2)
+		}
+		for i, h := range pk.harness {
+			writeFile(filepath.Join(dir, fmt.Sprintf("h%d.go", i)), harnessFile(h))
+		}
+		if b := run(dir, 10*time.Minute, nil, "go", "build", "-o", "explore.bin", "."); b.Exit != 0 {
+			fmt.Println("harness does not build:", tail(b.Stderr, 800))
+			cleanup()
+			os.Exit(2)
+		}
+		r := run(dir, 5*time.Minute, nil, filepath.Join(dir, "explore.bin"), "replay", cfg, strings.Join(sched, ","))
+		var first string
+		for i, l := range strings.Split(strings.TrimSpace(r.Stdout), "\n") {
+			var m struct {
+				Trace    []string
+				Problems []string
+				Diverged bool
+			}
+			if json.Unmarshal([]byte(l), &m) != nil {
+				continue
+			}
+			obs := strings.Join(m.Trace, " / ") + " => " + strings.Join(m.Problems, "; ")
+			if i == 0 {
+				first = obs
+				fmt.Printf("  schedule %v\n  trace: %s\n  oracle: %v\n", sched, strings.Join(m.Trace, " / "), m.Problems)
+			} else if obs != first {
+				fmt.Println("  second replay of the same schedule differs: nondeterminism outside the scheduler")
+				cleanup()
+				os.Exit(2)
+			}
+			if len(m.Problems) > 0 && !m.Diverged {
+				reproduced = true
+			}
+		}
+	}
+	cleanup()
+	if reproduced {
+		fmt.Printf("REPRODUCED property=%s configuration=%q\n", prop, cfg)
+		os.Exit(1)
+	}
+	fmt.Println("NOT REPRODUCED (the recorded schedule runs without violation on the current tree)")
+	os.Exit(0)
+}
